@@ -2,7 +2,7 @@
   Refine, part 11b — the search, continued: the clause compiled by `call/1` (`tc_succ`), the
   promises (`tp_succ`), and the induction on the fuel of the search (`t_all`).
 -/
-import PrologVerif.Proofs.RefineDfsAlt
+import PrologVerif.Proofs.RefineDfsNeg
 namespace PrologVerif.Refine
 open PrologVerif PrologVerif.VM PrologVerif.DecompileCompile PrologVerif.Activation
   PrologVerif.RefineITree PrologVerif.RefineRobinson PrologVerif.VMScoped
@@ -11,45 +11,9 @@ open PrologVerif PrologVerif.VM PrologVerif.DecompileCompile PrologVerif.Activat
 section
 variable {fl : Bool} {mo : Option Nat} {tmpl : Term} {max : Nat} {prog : List Term} {F : Nat}
 
-theorem LvOK.deeper {lv : Lv} {d d' : Nat} (h : LvOK mo lv d) (hd : d ≤ d') : LvOK mo lv d' :=
-  ⟨h.nodup, h.nz, h.mono, fun e he l hl => Nat.lt_of_lt_of_le (h.below e he l hl) hd,
-    fun dN hdN => Nat.lt_of_lt_of_le (h.lo dN hdN) hd, h.above⟩
-
-/-- a call with one alternative that the VM does not make changes nothing: the cut levels in use
-    are below its depth -/
-theorem match_post {lv : Lv} {d : Nat} {ans0 : List Term} {m m' : MS} {sig : SigG Err} {r1 : SLD.Res}
-    (hok : LvOK mo lv d) (hm : Match mo tmpl max prog lv ans0 m m' sig r1) :
-    Match mo tmpl max prog lv ans0 m m' sig (post d r1) := by
-  rcases hm.stop with ⟨h1, h2, h3⟩ | ⟨c, l, h1, h2, h3, h4⟩ | ⟨h1, h2⟩ | ⟨F', c1, c2, ex, co, h1, h2⟩
-  · have e : post d r1 = ⟨r1.answers ++ [], .exhausted⟩ := by simp [post, h2]
-    rw [e]
-    exact ⟨by simpa using hm.ans, Or.inl ⟨h1, rfl, h3⟩, hm.st, hm.nvar⟩
-  · have hl : l ≠ d := by have := hok.lev_lt h3; omega
-    have e : post d r1 = { r1 with stop := .cut l } := by simp [post, h2, hl]
-    rw [e]
-    exact ⟨hm.ans, Or.inr (Or.inl ⟨c, l, h1, rfl, h3, h4⟩), hm.st, hm.nvar⟩
-  · have e : post d r1 = r1 := by
-      cases mo with
-      | none =>
-        have h2' : r1.stop = .full := h2
-        simp [post, h2']
-      | some dN =>
-        have h2' : r1.stop = .cut dN := h2
-        have hne : dN ≠ d := by have := hok.lo dN rfl; omega
-        cases r1
-        simp_all [post]
-    rw [e]; exact hm
-  · have e : post d r1 = r1 := by simp [post, h2]
-    rw [e]; exact hm
-
-theorem match_postN {lv : Lv} {ans0 : List Term} {m m' : MS} {sig : SigG Err} {r1 : SLD.Res} :
-    ∀ (j d : Nat), LvOK mo lv d → Match mo tmpl max prog lv ans0 m m' sig r1 →
-      Match mo tmpl max prog lv ans0 m m' sig (postN d j r1)
-  | 0, _, _, hm => hm
-  | j + 1, d, hok, hm => match_post hok (match_postN j (d + 1) (hok.deeper (Nat.le_succ d)) hm)
-
 theorem tp_succ {k : Nat} (ihA : TAk fl mo tmpl max prog F k) (ihD : TDk fl mo tmpl max prog F k)
-    (ihPall : ∀ j, j ≤ k → TPk fl mo tmpl max prog F j) (hprog : ∀ c ∈ prog, clauseS fl c = true) :
+    (ihPall : ∀ j, j ≤ k → TPk fl mo tmpl max prog F j) (hprog : ∀ c ∈ prog, clauseS fl c = true)
+    (ihF : ∀ nF, F = nF + 1 → ∀ (mo' : Option Nat) (k' : Nat), TPk fl mo' tmpl max prog nF k') :
     TPk fl mo tmpl max prog F (k + 1) := by
   intro p lv m sig m' hd hgood d0 ans0 r0 hspecW hok0 hst hlt
   obtain ⟨j, r, hspec, rfl⟩ := hspecW
@@ -167,6 +131,32 @@ theorem tp_succ {k : Nat} (ihA : TAk fl mo tmpl max prog F k) (ihD : TDk fl mo t
         hok (stOK_tick hst) hlt with hill | hm
       · exact Or.inl hill
       · exact Or.inr (hm.from (Nat.le_refl _))
+  | neg hans hid0 hfl hsim hs =>
+    rename_i id g c K env R q nv n l
+    by_cases hid : (id ≠ 0 ∧ (lv.map Prod.fst).contains id)
+    · rw [ill_id' rfl hid] at hd
+      simp only [Option.some.injEq, Prod.mk.injEq] at hd
+      exact Or.inl hd.1.symm
+    · rw [nocut' rfl hid rfl] at hd
+      have hf : afterChild ({ ({ id := id, delayed := [Thunk.negate g K env] } : Pr) with cutParent := none }) =
+          ({ id := id, delayed := [] } : Pr) := by
+        simp [afterChild]
+      rw [hf] at hd
+      have hidn : id ∉ lv.map Prod.fst := by
+        intro hmem
+        exact hid ⟨hid0, by simpa using hmem⟩
+      cases k with
+      | zero => simp [dfsAlts] at hd
+      | succ k0 =>
+      have hgA : GoodA fl F (k0 + 1) (Thunk.negate g K env) { id := id, delayed := [] }
+          (lv.map Prod.fst) (tick m) := by
+        intro x mx hx
+        rw [← hf] at hx
+        exact hgood x mx (.nocut (ts := []) rfl hid rfl hx)
+      rcases tn_succ (ihPall k0 (Nat.le_succ k0)) hprog ihF hd hgA hans hid0 hidn hfl hsim hs hok (stOK_tick hst) hlt with
+        hill | hm
+      · exact Or.inl hill
+      · exact Or.inr (hm.from (Nat.le_refl _))
   | cut hans hlcp hN hW hcg hgr hco hq hbnd hs =>
     rename_i pc vars kk cp l env R q nv n r' N σ π D G'
     rcases cut_core ihPall hprog hd hgood hans hlcp hN hW hcg hgr hco hq hbnd hs hok hst hlt with
@@ -186,25 +176,34 @@ theorem td_zero : TDk fl mo tmpl max prog F 0 := by
   intro ct id K env R q nv n d r lv m sig m' ans0 hda
   simp [dfsAlts] at hda
 
-theorem t_all (hprog : ∀ c ∈ prog, clauseS fl c = true) : ∀ k : Nat,
+theorem t_all (hprog : ∀ c ∈ prog, clauseS fl c = true)
+    (ihF : ∀ nF, F = nF + 1 → ∀ (mo' : Option Nat) (k' : Nat), TPk fl mo' tmpl max prog nF k') : ∀ k : Nat,
     (∀ j, j ≤ k → TPk fl mo tmpl max prog F j) ∧ TAk fl mo tmpl max prog F k ∧ TDk fl mo tmpl max prog F k
   | 0 => ⟨fun j hj => by
       have : j = 0 := by omega
       subst this; exact tp_zero, ta_zero, td_zero⟩
   | k + 1 =>
-    have ih := t_all hprog k
+    have ih := t_all hprog ihF k
     have ihP : TPk fl mo tmpl max prog F k := ih.1 k (Nat.le_refl k)
     ⟨fun j hj => by
       rcases Nat.lt_or_ge j (k + 1) with h | h
       · exact ih.1 j (by omega)
       · have : j = k + 1 := by omega
         subst this
-        exact tp_succ ih.2.1 ih.2.2 ih.1 hprog,
+        exact tp_succ ih.2.1 ih.2.2 ih.1 hprog ihF,
      ta_succ ih.1 hprog, td_succ ihP hprog⟩
 
-theorem tp_all (hprog : ∀ c ∈ prog, clauseS fl c = true) (k : Nat) : TPk fl mo tmpl max prog F k :=
-  (t_all hprog k).1 k (Nat.le_refl k)
-
 end
+
+/-- **the refinement of the search**, for every fuel of the thunks (the searches nested in `\\+` run
+    with one unit less), every mode and every fuel of the search -/
+theorem tp_all {fl : Bool} {tmpl : Term} {max : Nat} {prog : List Term} (hprog : ∀ c ∈ prog, clauseS fl c = true) :
+    ∀ (F : Nat) (mo : Option Nat) (k : Nat), TPk fl mo tmpl max prog F k
+  | 0, mo, k => (t_all hprog (fun nF h => by cases h) k).1 k (Nat.le_refl k)
+  | F + 1, mo, k =>
+    (t_all hprog (fun nF h mo' k' => by
+      have : nF = F := by omega
+      subst this
+      exact tp_all hprog nF mo' k') k).1 k (Nat.le_refl k)
 
 end PrologVerif.Refine
